@@ -353,6 +353,8 @@ type daemon struct {
 	status int
 	body   []byte
 	srv    *httptest.Server
+	// auxBody: answer the header-extraction request with a body
+	auxBody bool
 }
 
 func newDaemon() *daemon {
@@ -373,6 +375,13 @@ func (d *daemon) serve(w http.ResponseWriter, r *http.Request) {
 		d.aux++
 		d.mu.Unlock()
 		w.Header().Set("X-C12-Daemon", "aux")
+		if d.auxBody && !preflight {
+			// like a real daemon's answer to the extraction request
+			// (POST version): a small JSON body
+			w.WriteHeader(200)
+			w.Write([]byte(`{"Version":"c12-fake","Commit":"","Repo":"11"}`))
+			return
+		}
 		// no body: like a real daemon's pre-flight answer; it also lets the
 		// proxy's transport reuse the connection (the proxy never closes
 		// these answers) instead of leaking one socket per request.
@@ -487,6 +496,7 @@ func newRig() (*rig, error) {
 		p.SetClient(c)
 		g := &rig{d: d, rec: rec, proxy: p, base: fmt.Sprintf("http://127.0.0.1:%d", port),
 			client: &http.Client{
+				Timeout:       30 * time.Second,
 				Transport:     &http.Transport{DisableCompression: true, MaxIdleConnsPerHost: 4},
 				CheckRedirect: func(*http.Request, []*http.Request) error { return http.ErrUseLastResponse },
 			}}
@@ -536,10 +546,26 @@ var transportRetries int64
 // do sends one request through the proxy and repeats it (at most 4 times)
 // when no complete HTTP answer arrived: a missing answer is only a verdict
 // when it is persistent.
+// unanswered counts requests that got no answer within the client's deadline.
+// A proxy that stops answering would otherwise hang the check: the first few
+// are reported (no-http-answer), after that the remaining requests of the run
+// are not sent any more and the run is marked incomplete.
+var unanswered int64
+
+const unansweredCap = 4
+
 func (g *rig) do(method, target string, body []byte, ctype string, dStatus int, dBody []byte) (o obs) {
+	if atomic.LoadInt64(&unanswered) >= unansweredCap {
+		R.NotExhaustive("the proxy stopped answering (several requests hit the client deadline): the remaining requests of the run were not sent")
+		return obs{ClientErr: "not sent: the proxy stopped answering earlier in this run"}
+	}
 	for attempt := 0; ; attempt++ {
 		o = g.do1(method, target, body, ctype, dStatus, dBody)
 		if o.ClientErr == "" || attempt == 4 {
+			return o
+		}
+		if strings.Contains(o.ClientErr, "Client.Timeout") || strings.Contains(o.ClientErr, "deadline exceeded") {
+			atomic.AddInt64(&unanswered, 1)
 			return o
 		}
 		atomic.AddInt64(&transportRetries, 1)
